@@ -2974,6 +2974,18 @@ header_gnutar(struct archive_read *a, struct tar *tar,
 		tar->size_fields |= TAR_SIZE_GNU_SPARSE_REALSIZE;
 	}
 
+	/*
+	 * Grab fields common to all tar variants.  This must come before
+	 * the sparse map is read: the extension blocks of an old-format
+	 * sparse entry are fetched with __archive_read_ahead(), after
+	 * which 'h' no longer points to valid memory.
+	 */
+	err = header_common(a, tar, entry, h);
+	if (err == ARCHIVE_FATAL)
+		return (err);
+
+	tar->entry_padding = 0x1ff & (-tar->entry_bytes_remaining);
+
 	if (header->sparse[0].offset[0] != 0) {
 		if (gnu_sparse_old_read(a, tar, header, unconsumed)
 		    != ARCHIVE_OK)
@@ -2983,13 +2995,6 @@ header_gnutar(struct archive_read *a, struct tar *tar,
 			/* XXX WTF? XXX */
 		}
 	}
-
-	/* Grab fields common to all tar variants. */
-	err = header_common(a, tar, entry, h);
-	if (err == ARCHIVE_FATAL)
-		return (err);
-
-	tar->entry_padding = 0x1ff & (-tar->entry_bytes_remaining);
 
 	return (err);
 }
